@@ -20,6 +20,7 @@ import functools
 import io
 import json
 import os
+import pathlib
 import re
 import shutil
 import signal
@@ -38,8 +39,10 @@ def _on_alarm(signum, frame):
 
 
 KINDS = ['none', 'targets', 'actions']
-PLAIN_FORMS = ['def', 'kwargs', 'args', 'default', 'partial', 'object']    # no parameter named dryrun
-AWARE_FORMS = ['def', 'default', 'kwonly', 'partial', 'object']            # a parameter named dryrun
+PLAIN_FORMS = ['def', 'kwargs', 'args', 'default', 'partial', 'object', 'tuple', 'param']    # no parameter named dryrun
+AWARE_FORMS = ['def', 'default', 'kwonly', 'partial', 'object', 'tuple', 'param']   # a parameter named dryrun
+CMD_FORMS = ['str', 'object', 'list']
+PARAM_DEFAULT = 'dv'
 DBNAME = {'json': 'db.json', 'dbm': 'db.dbm', 'sqlite3': 'db.sqlite'}
 
 
@@ -92,7 +95,8 @@ def norm_case(case):
         elif t['kind'] == 'actdry':
             t['kind'], t['actions'] = 'actions', [{'type': 'aware', 'eff': None}]
         elif t['kind'] == 'actions':
-            t['actions'] = [{'type': a['type'], 'eff': a.get('eff'), 'form': a.get('form', 'def')}
+            t['actions'] = [{'type': a['type'], 'eff': a.get('eff'), 'fail': a.get('fail'),
+                             'form': a.get('form', 'str' if a['type'] == 'cmd' else 'def')}
                             for a in t.get('actions', [])]
         else:
             t.pop('actions', None)
@@ -133,76 +137,117 @@ def build_namespace(case, log, out, cmdlog='/dev/null'):
         fn.__qualname__ = fn.__name__ = 'cleanact_%d_%d' % (i, k)
         return fn
 
-    def clean_plain(i, k, eff, form='def'):
+    def finish(fail):
+        """how a python clean action ends: a failing / raising clean action is reported on stderr and `clean` goes on"""
+        if fail == 'false':
+            return False
+        if fail == 'raise':
+            raise RuntimeError('this clean action raises')
+        return None
+
+    def clean_plain(i, k, eff, form='def', fail=None):
         """a python clean action WITHOUT a parameter named `dryrun`, in several shapes (all must be left alone by
-        --dry-run): plain def, **kwargs catch-all, *args, a defaulted other parameter, functools.partial, object"""
+        --dry-run): plain def, **kwargs catch-all, *args, a defaulted other parameter, functools.partial, object,
+        (fn, args, kwargs) tuple, a callable that takes a task parameter (Task.clean -> init_options)"""
         def record(seen_dry=False):
             log.append(('ran', i, k, bool(seen_dry), len(out.getvalue())))
             _apply_eff(eff)
+            return finish(fail)
         if form == 'kwargs':
             def clean_fn(**opts):
-                record(opts.get('dryrun', False))
+                return record(opts.get('dryrun', False))
         elif form == 'args':
             def clean_fn(*args):
-                record()
+                return record()
         elif form == 'default':
             def clean_fn(verbose=False):
-                record()
+                return record()
         elif form == 'partial':
             def inner(tag):
-                record()
+                return record()
             return functools.partial(name_it(inner, i, k), 'x')
         elif form == 'object':
             class Obj(object):
                 def __call__(self):
-                    record()
+                    return record()
 
                 def __repr__(self):
                     return '<cleanact_%d_%d object at 0x0>' % (i, k)
             return Obj()
+        elif form == 'tuple':
+            def clean_fn(a, b):
+                assert (a, b) == ('A', 1), (a, b)      # wrong arguments: the action is not recorded
+                return record()
+            return (name_it(clean_fn, i, k), ['A'], {'b': 1})
+        elif form == 'param':
+            def clean_fn(flag):
+                assert flag == PARAM_DEFAULT, flag
+                return record()
         else:
             def clean_fn():
-                record()
+                return record()
         return name_it(clean_fn, i, k)
 
-    def clean_dry(i, k, eff, form='def'):
+    def clean_dry(i, k, eff, form='def', fail=None):
         """a python clean action WITH a parameter named `dryrun` (called on every clean, told the flag)"""
         def record(dryrun):
             log.append(('ran', i, k, bool(dryrun), len(out.getvalue())))
             if not dryrun:
                 _apply_eff(eff)
+            return finish(fail)
         if form == 'default':
             def clean_fn(dryrun=False):
-                record(dryrun)
+                return record(dryrun)
         elif form == 'kwonly':
             def clean_fn(*, dryrun):
-                record(dryrun)
+                return record(dryrun)
         elif form == 'partial':
             def inner(tag, dryrun):
-                record(dryrun)
+                return record(dryrun)
             return functools.partial(name_it(inner, i, k), 'x')
         elif form == 'object':
             class Obj(object):
                 def __call__(self, dryrun):
-                    record(dryrun)
+                    return record(dryrun)
 
                 def __repr__(self):
                     return '<cleanact_%d_%d object at 0x0>' % (i, k)
             return Obj()
+        elif form == 'tuple':
+            def clean_fn(a, dryrun, b=0):
+                assert (a, b) == ('A', 1), (a, b)
+                return record(dryrun)
+            return (name_it(clean_fn, i, k), ['A'], {'b': 1})
+        elif form == 'param':
+            def clean_fn(flag, dryrun):
+                assert flag == PARAM_DEFAULT, flag
+                return record(dryrun)
         else:
             def clean_fn(dryrun):
-                record(dryrun)
+                return record(dryrun)
         return name_it(clean_fn, i, k)
+
+    def clean_cmd(i, k, eff, form='str', fail=None):
+        """a shell clean action: string, CmdAction object, or list form (no shell: argv of `sh -c`)"""
+        text = 'echo %d %d >> %s; %s' % (i, k, cmdlog, _shell_eff(eff))
+        if fail:
+            text += '; false'
+        if form == 'object':
+            from doit.action import CmdAction
+            return CmdAction(text)
+        if form == 'list':
+            return ['sh', '-c', text]
+        return text
 
     def clean_list(i):
         res = []
         for k, a in enumerate(tasks[i].get('actions', [])):
             if a['type'] == 'aware':
-                res.append(clean_dry(i, k, a.get('eff'), a.get('form', 'def')))
+                res.append(clean_dry(i, k, a.get('eff'), a.get('form', 'def'), a.get('fail')))
             elif a['type'] == 'plain':
-                res.append(clean_plain(i, k, a.get('eff'), a.get('form', 'def')))
+                res.append(clean_plain(i, k, a.get('eff'), a.get('form', 'def'), a.get('fail')))
             else:
-                res.append('echo %d %d >> %s; %s' % (i, k, cmdlog, _shell_eff(a.get('eff'))))
+                res.append(clean_cmd(i, k, a.get('eff'), a.get('form', 'str'), a.get('fail')))
         return res
 
     def task_dict(i, name_field):
@@ -216,7 +261,15 @@ def build_namespace(case, log, out, cmdlog='/dev/null'):
         if t['setup']:
             d['setup'] = [labels[x] for x in t['setup']]
         if t['targets']:
-            d['targets'] = list(t['targets'])
+            pf = t.get('pathform', 'str')
+            if pf == 'path':
+                d['targets'] = [pathlib.Path(x) for x in t['targets']]
+            elif pf == 'pure':
+                d['targets'] = tuple(pathlib.PurePosixPath(x) for x in t['targets'])
+            else:
+                d['targets'] = list(t['targets'])
+        if any(a.get('form') == 'param' for a in t.get('actions', [])):
+            d['params'] = [{'name': 'flag', 'default': PARAM_DEFAULT, 'long': 'flag'}]
         if t['kind'] == 'targets':
             d['clean'] = True
         elif t['kind'] == 'actions':
@@ -332,7 +385,7 @@ def invocations(events):
 
 
 LINE = re.compile(r"^(.*?) - (executing|removing file|removing dir|cannot remove \(it is not empty\)) '(.*)'$")
-ACTNO = re.compile(r"cleanact_(\d+)_(\d+)|Cmd: echo (\d+) (\d+) >>")
+ACTNO = re.compile(r"cleanact_(\d+)_(\d+)|echo (\d+) (\d+) >>")
 
 
 def doit_main(ns, argv):
@@ -491,12 +544,19 @@ def model_order_seen(ans):  # noqa
 def compare(case, obs, ans):
     """(K): list of differences between the implementation's observables and the model's answer"""
     diffs = []
+    if ans.get('crashed') and 'NotADirectoryError' in str(obs.get('outcome')):
+        return []
     if obs.get('outcome') != ans.get('outcome'):
         return ['outcome: impl %s model %s' % (obs.get('outcome'), ans.get('outcome'))]
     if ans.get('outcome') != 'ok':
         return diffs
     if ans.get('crashed'):
-        return ['the model says os.rmdir is called on a symbolic link (the command dies there); not compared further']
+        # os.rmdir on a symbolic link: the command dies there (open finding symlink-to-empty-dir); what the model
+        # computes after the `crash` event is not the code's, so only the way it ends is compared
+        if 'NotADirectoryError' in str(obs.get('outcome')):
+            return []
+        return ['the model says os.rmdir is called on a symbolic link and the command dies; the implementation ended: %s'
+                % obs.get('outcome')]
     if ans.get('oof'):
         diffs.append('model ran out of fuel')
     m_events = [e for e in ans['events'] if e[0] != 'cmd']
@@ -554,4 +614,9 @@ def monitor(case, obs, ans):
     announced = [(e[1], e[2]) for e in obs['events'] if e[0] == 'executing']
     if not dry and sorted(set(announced)) != sorted(set(keys)):
         failed.append('announced clean actions and executed clean actions differ')
+    # "runs the clean behaviour" of a task whose clean is a list = every action of the list, also after one that failed
+    for t in set(obs['order']):
+        acts = tasks[t].get('actions', []) if tasks[t]['kind'] == 'actions' else []
+        if acts and sorted(k for (tt, k) in set(announced) if tt == t) != list(range(len(acts))):
+            failed.append('not every clean action of %s was reached (%d in its list)' % (tasks[t]['label'], len(acts)))
     return failed
